@@ -3,8 +3,10 @@ open Dashu.Props.C18Gen
 #print axioms half_ulp_signif_eq
 #print axioms code_rounding_set_is_error_bounds
 #print axioms error_bounds_unlimited
-#print axioms code_unlimited_is_error_bounds
 #print axioms entry_is_skeleton
+#print axioms unlimited_path_is_exact
+#print axioms error_bounds_model_is_tables
+#print axioms error_bounds_model_unlimited
 #print axioms pick_is_skeleton
 #print axioms rounding_interval_is_macro
 #print axioms min_exp_f32_f64
